@@ -225,6 +225,17 @@ class Rewrites(Suite):
             out.append(dict(orig=ph(None), rewr=ph({'OTHER': 1}), prefix='',
                             moves=['global-vars:given-or-not' + (':quoted-placeholder-text' if special else '')]))
             out.append(dict(orig=ph({}), rewr=ph({'OTHER': 1}), moves=['global-vars'], prefix=''))
+        # an optional input that is absent in the task's own namespace while a sub-namespace has a task of that name:
+        # absent both when the pipeline is built directly and when it is mounted
+        oc = [dict(K(0, 'Extra', params=[P('sel')]), name='extra'),
+              dict(K(1, 'Dep', param_inputs=[dict(ref={'name': 'extra'}, default=[99])]), name='dep'),
+              dict(K(2, 'Top', meta_inputs=[{'cls': 1}]), name='top')]
+        inner = {'tasks': ['@M.Dep', '@M.Top'], 'uses': 'side.json as side'}
+        side = {'side.json': {'tasks': ['@M.Extra'], 'sel': 1}}
+        out.append(dict(orig=dict(classes=oc, files=dict(side), context=None, base={'name': 'm', 'data': inner}),
+                        rewr=dict(classes=oc, files=dict(side, **{'wrapped/base.json': inner}), context=None,
+                                  base={'name': 'wrapper', 'data': {'uses': 'wrapped/base.json as mnt'}}),
+                        moves=['mount:mnt'], prefix='mnt::'))
         # inputs collected by a pattern: the order in which the tasks are declared must not matter
         parts = [dict(K(i, f'Part{i}', params=[P('sel')]), name=f'part_{n}') for i, n in enumerate(['b', 'a', 'c'])]
         coll = dict(K(3, 'Collect', meta_inputs=[{'name': '~part_.*'}]), name='collect')
